@@ -18,7 +18,9 @@
   OBLIGATION c12_directives_walk_after_depth_check
   OBLIGATION c12_prechecks_never_overflow
   OBLIGATION c12_prechecks_order_needed
-  OPEN c12_unbounded_nesting_document
+  OBLIGATION c12_unbounded_nesting_document
+  OBLIGATION c12_unbounded_nesting_document_depth
+  OBLIGATION c12_parser_depth_unbounded
 -/
 import AGV.Lemmas.Hostile
 
@@ -89,7 +91,7 @@ theorem c12_unbounded_nesting (n : Nat) (rest : List Char) (p : Nat) (c : AGV.Mo
 
 /-- …and the bound is tight in its slope on the whole witness document: the least depth at which
     `{j(x:[ⁿ]ⁿ)}` is parsed from `executable_document` grows by exactly 12 per bracket
-    (evaluated instances; the general document-level statement is OPEN below). -/
+    (evaluated instances; the general lower bound is `c12_unbounded_nesting_document_depth`). -/
 theorem c12_unbounded_nesting_slope :
     depthFrom "executable_document" (listDoc 1) 0 200 + 12 = depthFrom "executable_document" (listDoc 2) 0 200 ∧
     depthFrom "executable_document" (listDoc 2) 0 200 + 12 = depthFrom "executable_document" (listDoc 3) 0 200 := by
@@ -127,13 +129,36 @@ theorem c12_prechecks_order_needed (stack : Nat) :
   refine ⟨?_, by decide⟩
   simp [runChecks, dirWalk_self_cycle]
 
--- ------------------------------------------------------------------ open
+-- ------------------------------------------------------------------ (b') the whole witness document
 
-/-- OPEN.  The same statement from the document rule on the whole witness document
-    `{j(x:[[…]])}` (needs the symbolic evaluation of the prefix `{j(x:` through
-    `executable_document … argument`; the recursive core is `c12_unbounded_nesting`).  Checked by
-    evaluation for small n below and tied by the harness' calibration cases. -/
-def c12_unbounded_nesting_document : Prop :=
-  ∀ n f, f ≤ 12 * n → eval grammar f {} (.ident "executable_document") 0 (listDoc n) = .oof
+/-- The nesting family from the DOCUMENT rule, on the whole witness document `{j(x:[[…]])}`: the
+    descent from `executable_document` is cut off at every depth `≤ 12·n` — for every `n`, so no
+    constant bounds the depth of the pest-compiled parser on documents a client can send.
+    (Closed by symbolic evaluation of the prefix `{j(x:` through `executable_document …
+    argument`, using fuel monotonicity of the interpreter; recursive core: `c12_unbounded_nesting`.) -/
+theorem c12_unbounded_nesting_document :
+    ∀ n f, f ≤ 12 * n → eval grammar f {} (.ident "executable_document") 0 (listDoc n) = .oof :=
+  fun n f hf => document_nest_oof n f (by omega)
+
+/-- …sharper: the 26 activations between the document rule and the argument's `value`
+    (`executable_document`, its sequences, `executable_definition`, `operation_definition`,
+    `selection_set`, `selection`, `field`, `arguments`, `argument` and the sequences, options and
+    repetitions between them) come on top of the twelve per bracket. -/
+theorem c12_unbounded_nesting_document_depth (n f : Nat) (hf : f ≤ 12 * n + 26) :
+    eval grammar f {} (.ident "executable_document") 0 (listDoc n) = .oof :=
+  document_nest_oof n f hf
+
+/-- In terms of the model's `parserRecursionDepth` (what the correspondence compares with the
+    real parser's behaviour): without the nesting pre-scan — the pinned tree — the recursion depth
+    on `{j(x:[ⁿ]ⁿ)}` is at least `12·n + 27`, for every `n` (evaluated: exactly `12·n + 40` for
+    n = 0…3, the innermost empty list costing 13 more — cf. `c12_unbounded_nesting_slope`). -/
+theorem c12_parser_depth_unbounded (n : Nat) :
+    12 * n + 27 ≤ parserRecursionDepth { noNestingLimit := true } (listDoc n) := by
+  have hc : ∀ f, f ≤ 12 * n + 26 → cutOffAt "executable_document" (listDoc n) f = true := by
+    intro f hf
+    simp [cutOffAt, document_nest_oof n f hf]
+  have hlen := listDoc_length n
+  simp only [parserRecursionDepth, Bool.not_true, Bool.false_and, Bool.false_eq_true, if_false]
+  exact depthFrom_ge _ _ (12 * n + 26) hc _ 0 (by omega) (by simp only [AGV.Model.Peg.fuelFor, hlen]; omega)
 
 end AGV.Props.C12
